@@ -92,6 +92,8 @@ def schedule_signature(ops):
             parts.append("A" + "".join(str(x) for x in op["ms"]))
         elif k == "restart":
             parts.append(f"r{op['m']}")
+        elif k in ("set_param", "set_fractions"):
+            parts.append("P")
         elif k == "fault_sweep":
             parts.append(f"S{op['m']}!{op['kind']}")
         elif k == "overlap":
